@@ -37,6 +37,8 @@ pub fn blocks(thorough: bool) -> Vec<Block> {
         b.push(Block::new(u_runs(), vec![Cfg::new(D), Cfg::new(W), Cfg::new(S), Cfg::new(ND), Cfg::new(NW), Cfg::new(NS), Cfg::new(D | NW | S)], "d, w, s, D, W, S, d+W+s"));
         b.push(Block::new(u_many(30), vec![Cfg::new(D), Cfg::new(W), Cfg::new(D | NW), Cfg::new(ND | W), Cfg::new(D | R)], "d, w, d+W, D+w, d+r"));
         b.push(Block::new(u_prefix_suffix2(4), vec![Cfg::new(D), Cfg::new(W)], "d, w"));
+        b.push(Block::new(u_alias_pairs(), class_cfgs(&[0]), "64 class subsets"));
+        b.push(Block::new(Universe::new("U_adv(A_esc)", A_ESC, 2, 1, false), class_cfgs(&[0]), "64 class subsets"));
         b.push(Block::new(u_feature_rich(), lattice_all(0, ALL_BITS & !(U | C)), "Lambda_full (no u,c): all 8,192 combinations against the spec"));
         b.push(Block::new(Universe::new("U_i3{U+0130,a,-,1,sp}", &["\u{130}", "a", "-", "1", " "], 3, 1, false), class_cfgs(&[I | R, I]), "64 class subsets x {i+r, i} (a test case that keeps its capital next to repeated class members)"));
         b.push(Block::new(u_kind_triples(), vec![Cfg::new(D | NW | S), Cfg::new(W | NS), Cfg::new(ND)], "d+W+s, w+S, D"));
